@@ -8,6 +8,7 @@ import (
 	"strings"
 	"time"
 
+	"github.com/kjx98/crc16"
 	"github.com/nats-io/nats.go"
 	"github.com/simpleiot/simpleiot/client"
 	"github.com/simpleiot/simpleiot/data"
@@ -431,6 +432,38 @@ func checkC12(r *mc.Report, thorough bool) {
 	})
 	p.Done()
 
+	// serial packets of every short length WITH A VALID CHECKSUM (truncations never have one)
+	p = r.Part("serial-valid-crc", "SerialDecode (+ PbDecodeSerialPoints) on packets of every total length 3..40 whose trailing CRC-16 is correct: bodies from {all 00, all ff, subject 'p.x', subject 'log', subject 'ack', protobuf-looking payload} x sequence byte {0,1,255}")
+	for total := 3; total <= 40; total++ {
+		for _, seq := range []byte{0, 1, 255} {
+			for kind := 0; kind < 6; kind++ {
+				body := make([]byte, total-2)
+				body[0] = seq
+				switch kind {
+				case 1:
+					for i := 1; i < len(body); i++ {
+						body[i] = 0xff
+					}
+				case 2:
+					copy(body[1:], "p.x")
+				case 3:
+					copy(body[1:], "log")
+				case 4:
+					copy(body[1:], "ack")
+				case 5:
+					copy(body[1:], "p.n")
+					if len(body) > 17 {
+						copy(body[17:], []byte{0x0a, 0x04, 0x12, 0x02, 0x61, 0x62, 0x0a, 0x00})
+					}
+				}
+				crc := crc16.ChecksumCCITT(body)
+				pkt := append(append([]byte{}, body...), byte(crc), byte(crc>>8))
+				try(p, pkt)
+			}
+		}
+	}
+	p.Done()
+
 	// subject parsers on malformed subjects
 	p = r.Part("subject-parsers", "the four subject parsers on all subjects of length 0..6 over {'.','a','p'} plus documented forms, with empty/valid/garbage payloads")
 	var subs []string
@@ -496,7 +529,7 @@ func init() {
 		}
 		return ""
 	}
-	for _, p := range []string{"decoders-all-short", "decoders-wire-alphabet", "decoders-mutated-valid", "subject-parsers"} {
+	for _, p := range []string{"decoders-all-short", "decoders-wire-alphabet", "decoders-mutated-valid", "serial-valid-crc", "subject-parsers"} {
 		replayers["C12/"+p] = rpBytes
 	}
 	replayers["C12/point-roundtrip"] = func(v *mc.Violation) string {
